@@ -51,6 +51,30 @@ PROPS = {
         level_text="Lean 4 theorems over every alignment 0..65535, every header offset, name length and large_file setting: the pad aligns the data and is minimal, a successful start_file_aligned is aligned, its assert_eq!/u16 addition/subtractions are unreachable and it never panics, it is refused (InvalidData) exactly when the padding record plus the ZIP64 record exceeds 65535 bytes, the reader recomputes the same data start; validate_extra_data accepts exactly the APPNOTE 4.5 record sequences with user-writable IDs (iff), rejects truncated / ZIP64 / reserved records anywhere, never panics; shared/split/central-only extra data lands verbatim in the local header resp. the central record. Tied to the source by the regenerated EXTRA_FIELD_MAPPING table (Tie obligation) and by correspondence of the whole public call sequences (start_file_aligned, start_file_with_extra_data/write/end_local_start_central_extra_data/end_extra_data, ZipArchive read-back) against the model",
         level_note="the extra-data calls are modelled as a state machine over the open entry only (write.rs start_file_aligned / end_extra_data / validate_extra_data, read.rs find_content); the rest of ZipWriter (header serialisation, compression switch, central directory) and the archive-level reader are covered by correspondence here and modelled under C01/C02; offsets are assumed below 2^64 - 65585 for the no-panic statements; translator and harness are trusted as stated in DESIGN.md section 7",
     ),
+    "C08": dict(
+        props=["ZipVerif.Props.C08"],
+        tie=["ZipVerif.Tie.Types"],
+        streams=["z64"],
+        title="Archives beyond the 16/32-bit limits stay correct (ZIP64)",
+        level_text="Lean 4 theorems over all UInt64 values of sizes and offsets (no payload is materialised): the central ZIP64 record the writer emits is parsed back exactly by the reader's parse_extra_field in every subset of overflowing fields including values of exactly 0xFFFFFFFF; 32-bit fields hold the value or the marker; local ZIP64 record of large files; the 4 GiB guard (write past 4 GiB into a non-large entry errors and closes the writer, a closed writer never finishes, compressed-size overflow refused at back-patch). Tied by translation of thresholds / zip64_extension / version_needed (Tie.Types) and by record-level correspondence through the header hooks with arbitrary 64-bit values; real >4 GiB / >65535-entry archives over a sparse sink in the oracle (thorough)",
+        level_note="archive-level ZIP64 round trip is C01/C03 instantiated at these records; the ZIP64 end-record thresholds inside finalize are covered by correspondence (z64.end, write stream) and by the writer-output theorem of C02 where proved; sparse-sink scenarios are implementation-side observations (the model cannot materialise 4 GiB lists)",
+    ),
+    "C04": dict(
+        props=["ZipVerif.Props.C04"],
+        tie=[],
+        streams=["damage"],
+        title="A read that completes successfully returned uncorrupted data",
+        level_text="Lean 4 theorems: for ANY inner reader and ANY schedule of caller buffer sizes (zeros included) a non-empty read of the CRC layer returning Ok(0) implies AE-2 or crc32(bytes returned) = declared (hasher = fold of the bytes returned, induction over the call list); corrupted Stored payloads / CRC fields / truncated payloads denote an error for every schedule and short-read behaviour; CRC-32 provably detects every single-byte substitution (bitwise, from the polynomial); the layer model is tied to the source by correspondence (function-level ops on Crc32Reader/Take through hooks and archive-level ops through the public API with bit-flip damage) and an implementation-only oracle using crc32fast",
+        level_note="Crc32Reader/Take bodies are hand-modelled (Model/Layers.lean) and tied by differential testing, not by translation; decoders are a parameter (nothing assumed for soundness, the CRC layer is outermost); Spec.Crc32 = crc32fast by correspondence; AE-2 entries are exempt here and covered by C16",
+    ),
+    "C09": dict(
+        props=["ZipVerif.Props.C09"],
+        tie=[],
+        streams=["layers"],
+        title="Results do not depend on how I/O is chunked",
+        level_text="Lean 4 theorems over a schedule-free denotation of readers (every sequence of request sizes incl. zero, every short-read behaviour): Take, Crc32Reader, the fixed ZipCrypto reader and any count-preserving per-byte stateful transform map denotations to denotations, composed into the Stored (plain / ZipCrypto) entry pipelines end-to-end and into the compressed ones modulo an explicit codec hypothesis; EOF is sticky; read_exact and write_all are schedule independent; ZipWriter::write accounts exactly the accepted bytes so data, CRC and size are independent of sink short writes and of the caller's splitting; the pre-fix ZipCrypto reader is refuted on a concrete 2-call schedule; tied by correspondence over scripted short-read readers / short-write sinks (function level through hooks, archive level through the public API) plus an implementation-only oracle against the unchunked run",
+        level_note="layer bodies are hand-modelled and tied by differential testing; flate2/bzip2/zstd chunk independence is an explicit hypothesis (Codec.ChunkIndependent), validated only by the oracle; the AES reader is modelled elsewhere (generic statefulMapLayer theorem provided), AES entries are oracle-only here; u64 counters are modelled as Nat",
+    ),
 }
 
 ALLOWED_AXIOMS = {"propext", "Classical.choice", "Quot.sound"}
